@@ -400,4 +400,67 @@ pub proof fn lemma_empty_maximal()
     }
 }
 
+
+/// the sibling test is sound: where it succeeds, a complete sibling group is present
+pub proof fn lemma_merge_test_sound(l: Seq<u64>, a: int) -> (p: A5Cell)
+    requires all_canonical(l), 0 <= a < l.len(), merge_test(l, a),
+    ensures
+        valid(p), p.resolution <= 28,
+        forall|j: int| 0 <= j < group_size(p.resolution + 1) ==> l.contains(enc(#[trigger] sibling(p, j))),
+{
+    let cell = l[a];
+    let r = res_of(cell);
+    lemma_canonical_decodable(cell);
+    lemma_dec_res(cell);
+    let c = dec(cell);
+    lemma_anc_valid(c, r - 1);
+    lemma_anc_step(c, r - 1);
+    let p = parent1(c);
+    assert forall|j: int| 0 <= j < group_size(p.resolution + 1) implies l.contains(enc(#[trigger] sibling(p, j))) by {
+        lemma_sibling_group(cell, j);
+        if j == 0 { assert(cell + 0 * stride_of(r) == cell); assert(l[a + 0] == cell); }
+        assert(l[a + j] == enc(sibling(p, j)));
+    }
+    p
+}
+
+/// C10: a maximal list of valid cells is a fixed point of the sibling test, in whatever order it is listed
+pub proof fn lemma_maximal_no_merge(l: Seq<u64>)
+    requires all_canonical(l), maximal(l),
+    ensures no_merge_possible(l),
+{
+    assert forall|a: int| 0 <= a < l.len() implies !merge_test(l, a) by {
+        if merge_test(l, a) {
+            let p = lemma_merge_test_sound(l, a);
+            assert(false);
+        }
+    }
+}
+
+/// C10 (idempotence, as sets): if `out` is a maximal list of valid cells, then compacting it again returns its
+/// sorted duplicate-free enumeration - the same set.  (compact()'s contract: a list on whose sorted enumeration the
+/// sibling test fails everywhere is returned as that enumeration.)
+pub proof fn thm_idempotent(out: Seq<u64>, s: Seq<u64>)
+    requires all_canonical(out), maximal(out), sorted_strict(s), s.to_set() == out.to_set(),
+    ensures no_merge_possible(s), all_canonical(s), maximal(s),                                   // [C10:idempotent]
+{
+    assert forall|k: int| 0 <= k < s.len() implies canonical(#[trigger] s[k]) by {
+        assert(s.to_set().contains(s[k]));
+        assert(out.contains(s[k]));
+        let j = choose|j: int| 0 <= j < out.len() && out[j] == s[k];
+        assert(canonical(out[j]));
+    }
+    assert forall|p: A5Cell| valid(p) && p.resolution <= 28 implies
+        !(forall|j: int| 0 <= j < group_size(p.resolution + 1) ==> s.contains(enc(#[trigger] sibling(p, j)))) by {
+        if forall|j: int| 0 <= j < group_size(p.resolution + 1) ==> s.contains(enc(#[trigger] sibling(p, j))) {
+            assert forall|j: int| 0 <= j < group_size(p.resolution + 1) implies out.contains(enc(#[trigger] sibling(p, j))) by {
+                assert(s.contains(enc(sibling(p, j))));
+                assert(s.to_set().contains(enc(sibling(p, j))));
+            }
+            assert(false);
+        }
+    }
+    lemma_maximal_no_merge(s);
+}
+
 } // verus!
